@@ -11,7 +11,7 @@ Definition env_of (i : term) : env :=
 Definition of_event (ev : event) : term :=
   match ev with
   | EErr code => TL [TS "e"; TZ code]
-  | EPrint => TL [TS "p"]
+  | EPrint => TL [TS "p"; TZ 1]
   | EReport cmd c => TL [TS "r"; of_ss cmd; of_cfg c; TZ 1; TZ 1]
   end.
 
@@ -142,6 +142,8 @@ Fixpoint spec_lines (before : term) (ls : list term) : bool :=
       let evs := gl (gn l 0) in
       let after := gn l 1 in
       reports_clean (map (fun ev => (ev_is_report ev, gb (gn ev 3), gb (gn ev 4))) evs)
+      (* what help / o / options print is the same as in a fresh process with the same options *)
+      && forallb (fun ev => negb (String.eqb (gs (gn ev 0)) "p") || gb (gn ev 1)) evs
       && (if existsb ev_is_report evs then term_eqb before after else true)   (* a command leaves the options alone *)
       && spec_lines after r
   end.
